@@ -16,7 +16,7 @@ TLS = ['absent', 'optional', 'required']
 S2 = ['no SASL2', 'SASL2 without bind2', 'SASL2 with bind2 (1 feature)']
 QUICK_FEATURES = {(0, 1): 1, (1, 1): 2, (2, 1): 0, (1, 0): 1, (2, 0): 2}      # (tls, local ssl) -> SASL2 case that also runs in the quick tier
 INST = (
-    [I('start_%s' % LISTENERS[k], 'start', 1 | 16 | k << 10, 'socket started (handleStart); previous listener: ' + LISTENERS[k], tiers=Q if k == 0 else T) for k in range(4)]
+    [I('start_%s' % LISTENERS[k], 'start', 1 | 16 | k << 10, 'socket started (handleStart); previous listener: ' + LISTENERS[k], tiers=Q if k == 1 else T) for k in range(4)]
     + [I('start_starttls', 'start', 1 | 16 | 512, 'socket started while the STARTTLS step of the previous connection still listens', st=True, tiers=T)]
     + [I('disconnected_%s' % LISTENERS[k], 'disconnected', 1 | 16 | k << 10, 'socket disconnected (_q_socketDisconnected, no further address / redirect); isAuthenticated and listener (%s) arbitrary' % LISTENERS[k],
          tiers=Q if k == 1 else T) for k in range(4)]
